@@ -309,5 +309,6 @@ pub fn c06(tier: Tier, _seed: u64) -> Prop {
             }
             json!({"states": steps.max(1), "transitions": steps.max(1), "traces_validated_against_impl": steps, "history_actions": steps})
         }),
+        profiles: vec!["release"],
     }
 }
